@@ -185,6 +185,9 @@ type vPkg struct {
 	docs            map[token.Pos]map[string][]string
 }
 
+// vFileDocs: package doc tag lines of files other than the first (file name -> lines).
+var vFileDocs map[string][]string
+
 func vNewPkg(fset *token.FileSet, mod *packages.Module, path, name, dir string, pkgDocTags []string, fileNames []string, specs []vTypeSpec) *vPkg {
 	p := &vPkg{path: path, name: name, dir: dir, fset: fset, mod: mod,
 		tpkg: types.NewPackage(path, name), typeObjs: map[string]*types.TypeName{}, docs: map[token.Pos]map[string][]string{}}
@@ -195,9 +198,13 @@ func vNewPkg(fset *token.FileSet, mod *packages.Module, path, name, dir string, 
 			firstBase = tf.Base()
 		}
 		f := &ast.File{FileStart: token.Pos(tf.Base()), FileEnd: token.Pos(tf.Base() + 1000), Name: ast.NewIdent(name)}
+		docLines := vFileDocs[fn]
 		if i == 0 && len(pkgDocTags) > 0 {
+			docLines = pkgDocTags
+		}
+		if len(docLines) > 0 {
 			var list []*ast.Comment
-			for _, t := range pkgDocTags {
+			for _, t := range docLines {
 				list = append(list, &ast.Comment{Text: "// " + t})
 			}
 			f.Doc = &ast.CommentGroup{List: list}
@@ -287,8 +294,14 @@ func (w *vWorld) addPkgNoFiles(rel string, direct bool, sum string, specs []vTyp
 	if _, ok := verifsym.FSGet(dir + "/" + rel + ".go"); !ok {
 		verifsym.FSPut(dir+"/"+rel+".go", "package "+rel+"\n")
 	}
-	// files known to the loader: the source file plus generated files already on disk
+	// files known to the loader: the source file(s) plus generated files already on disk
 	names := []string{rel + ".go"}
+	for extra := range vFileDocs {
+		if vHasPrefix(extra, rel+"_") {
+			names = append(names, extra)
+			verifsym.FSPut(dir+"/"+extra, "package "+rel+"\n")
+		}
+	}
 	for _, g := range []string{"ga", "gb"} {
 		if _, ok := verifsym.FSGet(dir + "/" + vBase + "." + g + ".go"); ok {
 			names = append(names, vBase+"."+g+".go")
